@@ -5,6 +5,8 @@
 #include "gmsim.h"
 #include "sm4_sbox.inc"
 
+extern int g_preempt_on;
+
 /* ------------------------------------------------------- state integrity */
 typedef struct StateSnap {
 	int valid;
@@ -46,8 +48,10 @@ static void state_check(StateSnap *s)
 	else if (c->server_certs_len > sizeof(c->server_certs)) bad = "server_certs_len";
 	else if (c->client_certs_len > sizeof(c->client_certs)) bad = "client_certs_len";
 	else if (c->session_id_len > sizeof(c->session_id)) bad = "session_id_len";
-	else if (c->datalen > sizeof(c->databuf)) bad = "datalen";
-	else if (c->datalen && (c->data < c->databuf || c->data + c->datalen > c->databuf + sizeof(c->databuf))) bad = "data_ptr";
+	/* datalen/data are updated in two steps inside the receive path; with function-entry
+	 * preemption the monitor can look in between, so they are only checked when it cannot */
+	else if (!g_preempt_on && c->datalen > sizeof(c->databuf)) bad = "datalen";
+	else if (!g_preempt_on && c->datalen && (c->data < c->databuf || c->data + c->datalen > c->databuf + sizeof(c->databuf))) bad = "data_ptr";
 	else {
 		const uint8_t *own = c->is_client ? c->client_certs : c->server_certs;
 		size_t own_len = c->is_client ? c->client_certs_len : c->server_certs_len;
